@@ -27,14 +27,16 @@ pub struct GenCfg {
     pub background: bool,
     /// occasionally draw 1xN / Nx1 / very tall or wide cels (N up to 300)
     pub extreme_cels: bool,
+    /// occasionally draw dimensions / counts beyond 255 and 65535 (tilesets, tiles, stored maps, canvases)
+    pub big: bool,
 }
 
 impl GenCfg {
     pub fn small() -> GenCfg {
-        GenCfg { max_w: 24, max_h: 24, fmt: None, max_layers: 8, max_frames: 5, max_cel: 20, tilemaps: true, groups: true, links: true, attrs: true, extremes: true, blend_modes: true, cel_density: 5, background: true, extreme_cels: false }
+        GenCfg { max_w: 24, max_h: 24, fmt: None, max_layers: 8, max_frames: 5, max_cel: 20, tilemaps: true, groups: true, links: true, attrs: true, extremes: true, blend_modes: true, cel_density: 5, background: true, extreme_cels: false, big: false }
     }
     pub fn tiny() -> GenCfg {
-        GenCfg { max_w: 6, max_h: 6, fmt: None, max_layers: 4, max_frames: 3, max_cel: 6, tilemaps: true, groups: true, links: true, attrs: true, extremes: false, blend_modes: true, cel_density: 5, background: true, extreme_cels: false }
+        GenCfg { max_w: 6, max_h: 6, fmt: None, max_layers: 4, max_frames: 3, max_cel: 6, tilemaps: true, groups: true, links: true, attrs: true, extremes: false, blend_modes: true, cel_density: 5, background: true, extreme_cels: false, big: false }
     }
 }
 
@@ -171,14 +173,28 @@ pub fn gen_palette(rng: &mut Rng, cfg: &GenCfg, indexed: bool) -> BTreeMap<u32, 
 }
 
 pub fn gen_tileset(rng: &mut Rng, sp: &Sprite, id: u32, cfg: &GenCfg) -> TilesetM {
-    let tw = rng.range(1, 17) as u16;
-    let th = rng.range(1, 9) as u16;
+    // `big`: dimensions beyond what small sprites reach (tile ids >= 256 / >= 65536, tiles wider than 255 px,
+    // tileset images taller than 65535 px)
+    let big = cfg.big && rng.chance(1, 10);
+    let (tw, th) = if big {
+        match rng.below(3) {
+            0 => (rng.range(256, 300) as u16, 1u16),
+            1 => (1u16, rng.range(256, 300) as u16),
+            _ => (rng.range(1, 2) as u16, 1u16),
+        }
+    } else {
+        (rng.range(1, 17) as u16, rng.range(1, 9) as u16)
+    };
     let area = tw as u32 * th as u32;
     let maxc = (6000 / area).clamp(1, 300);
-    let count = match rng.below(4) {
-        0 => 1,
-        1 => rng.range(1, 4) as u32,
-        _ => rng.range(1, maxc as i64) as u32,
+    let count = if big && area <= 2 {
+        *rng.pick(&[257u32, 300, 65_536, 65_537, 70_000])
+    } else {
+        match rng.below(4) {
+            0 => 1,
+            1 => rng.range(1, 4) as u32,
+            _ => rng.range(1, maxc as i64) as u32,
+        }
     };
     let mut flags = TS_EMBED;
     if rng.chance(3, 4) {
@@ -220,8 +236,15 @@ pub fn gen_tileset(rng: &mut Rng, sp: &Sprite, id: u32, cfg: &GenCfg) -> Tileset
 /// A well-formed sprite model plus the palette program that encodes its palette.
 pub fn gen_sprite(rng: &mut Rng, cfg: &GenCfg) -> (Sprite, PaletteProgram) {
     let fmt = cfg.fmt.unwrap_or_else(|| *rng.pick(&[Fmt::Rgba, Fmt::Rgba, Fmt::Gray, Fmt::Indexed, Fmt::Indexed]));
-    let width = rng.range(1, cfg.max_w as i64) as u16;
-    let height = rng.range(1, cfg.max_h as i64) as u16;
+    let (width, height) = if cfg.big && rng.chance(1, 25) {
+        if rng.chance(1, 2) {
+            (rng.range(257, 400) as u16, rng.range(1, 3) as u16)
+        } else {
+            (rng.range(1, 3) as u16, rng.range(257, 400) as u16)
+        }
+    } else {
+        (rng.range(1, cfg.max_w as i64) as u16, rng.range(1, cfg.max_h as i64) as u16)
+    };
     let nframes = rng.range(1, cfg.max_frames as i64) as usize;
     let mut sp = Sprite::blank(width, height, fmt, nframes);
     for d in sp.durations.iter_mut() {
@@ -313,8 +336,16 @@ pub fn gen_sprite(rng: &mut Rng, cfg: &GenCfg) -> (Sprite, PaletteProgram) {
                 }
                 LayerKind::Tilemap(id) => {
                     let ts = sp.tileset(id).unwrap().clone();
-                    let w = rng.range(1, 8) as u16;
-                    let h = rng.range(1, 8) as u16;
+                    let (w, h) = if cfg.big && rng.chance(1, 12) {
+                        // stored maps wider / taller than 255 tiles
+                        if rng.chance(1, 2) {
+                            (rng.range(256, 300) as u16, 1u16)
+                        } else {
+                            (1u16, rng.range(256, 300) as u16)
+                        }
+                    } else {
+                        (rng.range(1, 8) as u16, rng.range(1, 8) as u16)
+                    };
                     let (masks, garbage): ([u32; 4], u32) = match rng.below(3) {
                         0 => ([0x1fff_ffff, 0x2000_0000, 0x4000_0000, 0x8000_0000], 0),
                         1 => ([0x0000_ffff, 0x2000_0000, 0x4000_0000, 0x8000_0000], 0x1fff_0000),
@@ -323,7 +354,14 @@ pub fn gen_sprite(rng: &mut Rng, cfg: &GenCfg) -> (Sprite, PaletteProgram) {
                     let idcap = ts.count.min(masks[0].saturating_add(1).max(1));
                     let tiles: Vec<u32> = (0..(w as usize * h as usize))
                         .map(|_| {
-                            let id = if rng.chance(1, 4) { 0 } else { rng.below(idcap as u64) as u32 };
+                            let id = if rng.chance(1, 4) {
+                                0
+                            } else if idcap > 256 && rng.chance(1, 2) {
+                                // ids above 255 / 65535 when the tileset is that large
+                                idcap - 1 - rng.below((idcap as u64 - 256).min(64)) as u32
+                            } else {
+                                rng.below(idcap as u64) as u32
+                            };
                             id | (rng.u32() & garbage)
                         })
                         .collect();
